@@ -15,7 +15,7 @@ open BreezyVerif.C46 Forest
 variable {c : Cfg} {f f' : Forest} {q : Path} {i : Info} {k : Forest}
 
 theorem smartAdd_ok (h : smartAdd c f = .ok f') :
-    checkNames c.fmt f c.names = none ∧ f' = pass c [] (rootMode c) f := by
+    checkNames c.fmt c.gitRefusesCtl f c.names = none ∧ f' = pass c [] (rootMode c) f := by
   unfold smartAdd at h
   split at h
   · cases h
@@ -24,7 +24,7 @@ theorem smartAdd_ok (h : smartAdd c f = .ok f') :
     exact ⟨hn, rfl⟩
 
 /-- the call fails iff validation of the named paths fails, with that error -/
-theorem smartAdd_error (e : Err) : smartAdd c f = .error e ↔ checkNames c.fmt f c.names = some e := by
+theorem smartAdd_error (e : Err) : smartAdd c f = .error e ↔ checkNames c.fmt c.gitRefusesCtl f c.names = some e := by
   unfold smartAdd
   split
   · rename_i e' he
